@@ -54,7 +54,7 @@ def extra(chk, pkg):
                     chk.add_violation("cli", sig, msg, data)
         chk.cov["cli_inprocess_cases"] = len(jobs)
         chk.cov["cli_inprocess_invocations"] = sum(
-            sum(1 for l in c if l.split()[0] in ("searchc", "pfallc", "xgd")) for c, _, _ in jobs)
+            sum(1 for l in c if l.split()[0] in ("searchc", "xpfc", "xgd")) for c, _, _ in jobs)
         return
     n = int(os.environ.get("VERIF_C08_CLI", "64"))
     cases = [partition.gen_case(chk.rng, partition.FLAVOURS[i % len(partition.FLAVOURS)]) for i in range(n)]
